@@ -56,10 +56,13 @@ def split_file(path, k, outdir):
 def judge_records(work, path, name):
     d = work.path('chunks_' + name)
     os.makedirs(d, exist_ok=True)
-    chunks, n = split_file(path, vlib.NCPU, d)
+    # chunks of at most ~250 k records (TLC holds a chunk in memory, ~4 KB per record; sixteen JVMs with 1.7 M records
+    # each were killed by the kernel's OOM killer in a thorough run), judged by a pool of 12 JVMs of at most 3 GB
+    total = sum(1 for _ in open(path))
+    chunks, n = split_file(path, max(vlib.NCPU, -(-total // 250000)), d)
 
     def one(ix):
-        rc, out = vlib.tlc(work, 'Trace_Codec', env_extra={'TRACE': chunks[ix]}, name='%s_%d' % (name, ix), timeout=1500)
+        rc, out = vlib.tlc(work, 'Trace_Codec', env_extra={'TRACE': chunks[ix], 'JAVA_TOOL_OPTIONS': '-Xmx3g'}, name='%s_%d' % (name, ix), timeout=1500)
         bad, notes, done = vlib.parse_flags(out)
         nl = sum(1 for _ in open(chunks[ix]))
         if done != nl:
@@ -71,7 +74,7 @@ def judge_records(work, path, name):
             for b in bad:
                 b['record'] = json.loads(lines[b['line'] - 1])
         return bad, st
-    with cf.ThreadPoolExecutor(max_workers=len(chunks)) as ex:
+    with cf.ThreadPoolExecutor(max_workers=min(len(chunks), 12)) as ex:
         outs = list(ex.map(one, range(len(chunks))))
     bad = [b for o in outs for b in o[0]]
     return bad, n, sum(o[1] for o in outs)
